@@ -763,24 +763,47 @@ fn lookup_route_case(dict: &JapaneseDictionary, query: &str, s: u32, verbose: bo
         }
     };
     let got = go(s);
-    let want = go(1023);
+    // the expectation does not go through a MorphemeList: every word id is read with all fields straight from the lexicon,
+    // the parts of a split are the units of the entry's split list, laid end to end by their head-word lengths
+    let full = |wid: u32| -> Option<sudachi::dic::lexicon::word_infos::WordInfo> { get(dict, WordId::from_raw(wid), InfoSubset::all()).ok() };
     if verbose {
-        println!("query {:?}, lookup subset {:#b}\n   with the subset: {:?}\n   with all fields: {:?}", query, s, got, want);
+        println!("query {:?}, lookup subset {:#b}\n   with the subset: {:?}", query, s, got);
     }
-    match (got, want) {
-        (Ok((fs, ge, gs)), Ok((_, we, ws))) => {
-            if ge != we {
-                return (fs, Some(format!("lookup({:?}, {:#b}): entries {:?}, with all fields {:?}", query, s, ge, we)));
+    match got {
+        Ok((fs, ge, gs)) => {
+            for e in &ge {
+                let want = match full(e.2) {
+                    Some(w) => accessors(&D2(w), s & !2),
+                    None => continue,
+                };
+                if e.3 != want || e.0 != 0 || e.1 != query.len() {
+                    return (fs, Some(format!("lookup({:?}, {:#b}): entry {:?}, with all fields {:?}", query, s, e, want)));
+                }
             }
-            for (a, b) in gs.iter().zip(ws.iter()) {
-                if a != b {
-                    return (fs, Some(format!("lookup({:?}, {:#b}) then split_into({}) of entry {}: split happened {} parts {:?}; with all fields: {} {:?}", query, s, a.0, a.1, a.2, a.3, b.2, b.3)));
+            for (name, i, did, parts) in &gs {
+                let ew = match full(ge[*i].2) {
+                    Some(w) => w,
+                    None => continue,
+                };
+                let units: Vec<u32> = if name == "A" { ew.a_unit_split().iter().map(|w| w.as_raw()).collect() } else { ew.b_unit_split().iter().map(|w| w.as_raw()).collect() };
+                let mut want: Vec<Item> = vec![];
+                let mut off = 0usize;
+                for (k, u) in units.iter().enumerate() {
+                    let w = match full(*u) {
+                        Some(w) => w,
+                        None => return (fs, None),
+                    };
+                    let end = if k + 1 == units.len() { query.len() } else { off + w.head_word_length() };
+                    want.push((off, end, *u, accessors(&D2(w), s & !2)));
+                    off = end;
+                }
+                if *did != !units.is_empty() || *parts != want {
+                    return (fs, Some(format!("lookup({:?}, {:#b}) then split_into({}) of entry {}: split happened {}, parts {:?}; the units of its split list with all fields: {:?}", query, s, name, i, did, parts, want)));
                 }
             }
             (fs, None)
         }
-        (Err(e), Ok(_)) => (0, Some(format!("lookup({:?}, {:#b}) and split fail only with the subset: {}", query, s, e))),
-        _ => (1023, None),
+        Err(e) => (0, Some(format!("lookup({:?}, {:#b}) and split fail: {}", query, s, e))),
     }
 }
 
